@@ -522,6 +522,17 @@ func TestVerifC13(t *testing.T) {
 				bad = true
 				continue
 			}
+			for f := range fresh.Refs {
+				// references the code fills in later and in place are not judged (servers register in the metrics exporter;
+				// the HLS server registers in the path manager from its own goroutine)
+				if (name == "metrics" && f[0] >= 'a' && f[0] <= 'z') || (name == "pathManager" && f == "hlsServer") {
+					continue
+				}
+				if _, has := got.Refs[f]; !has {
+					r.Violation("reference-missing-after-reload:"+name+"."+f, fmt.Sprintf("%s: after a fresh start with the new configuration %s.%s points at a component; after the reload it is nil (the component exists but %s does not know it)", e.Desc, name, f, name), wit)
+					bad = true
+				}
+			}
 			if d := vmon.DiffDumps(fresh.Values, got.Values, 4); len(d) != 0 {
 				r.Violation("parameter-not-applied:"+name, fmt.Sprintf("%s: after the reload component %s runs with parameters that differ from a fresh start with the new configuration: %v", e.Desc, name, d), wit)
 				bad = true
@@ -653,6 +664,10 @@ func TestVerifC13(t *testing.T) {
 	for _, m := range muts {
 		runPair(c13Edit{Desc: "patch " + js(map[string]any{m.Field: m.Alts[0]}), Label: m.Field, New: map[string]any{m.Field: m.Alts[0]}})
 	}
+	// a server that is switched on by the reload (old = base with it off)
+	for _, f := range []string{"rtsp", "rtmp", "hls", "webrtc", "srt", "moq", "metrics", "pprof", "playback"} {
+		runPair(c13Edit{Desc: "patch " + js(map[string]any{f: true}) + " (it was off)", Label: f + ":switched-on", Old: map[string]any{f: false}, New: map[string]any{f: true}})
+	}
 	// path-level edits through the API and multi-path edits through the file
 	for i := range c13PathEdits {
 		pe := c13PathEdits[i]
@@ -722,6 +737,6 @@ func TestVerifC13(t *testing.T) {
 		runPair(e)
 	}
 	r.Count("distinct_global_fields_exercised", int64(len(fieldsTried)))
-	r.Finish("pairs (old, new) of configurations on real Cores (all servers enabled on a private port block, TLS material in place). Round 1: new = base with one global parameter changed, for every non-deprecated global parameter (enumerated by reflection over conf.Conf, type-driven alternative values). Path-level edits through the API (path defaults, add / patch / replace / delete) and multi-path edits through the configuration file (renames: equal numbers of added and removed paths). Round 2: pairs of parameters that affect a common component, with every alternative value and in every direction (old = base, new = base+f+g; old = base+f, new = base+g; old = base+g, new = base+f; old = base+f+g, new = base) - quick samples these cases, thorough enumerates them. Round 3: random pairs. For each pair: real Core started from old, reloaded to new (API or file; barrier: a following no-op edit and a path manager query), white-box snapshot of every component (exported configuration fields, path configurations, referenced components); then a real Core started fresh from new. Oracle (metamorphic): snapshot(reload) == snapshot(fresh) per component; no component still references a replaced instance; components whose parameters (and referenced components) did not change keep their identity. non-trivial = distinct (old, new)",
+	r.Finish("pairs (old, new) of configurations on real Cores (all servers enabled on a private port block, TLS material in place). Round 1: new = base with one global parameter changed, for every non-deprecated global parameter, and every server switched on by the reload (old = base with it off) (enumerated by reflection over conf.Conf, type-driven alternative values). Path-level edits through the API (path defaults, add / patch / replace / delete) and multi-path edits through the configuration file (renames: equal numbers of added and removed paths). Round 2: pairs of parameters that affect a common component, with every alternative value and in every direction (old = base, new = base+f+g; old = base+f, new = base+g; old = base+g, new = base+f; old = base+f+g, new = base) - quick samples these cases, thorough enumerates them. Round 3: random pairs. For each pair: real Core started from old, reloaded to new (API or file; barrier: a following no-op edit and a path manager query), white-box snapshot of every component (exported configuration fields, path configurations, referenced components); then a real Core started fresh from new. Oracle (metamorphic): snapshot(reload) == snapshot(fresh) per component, incl. which references to other components are set; no component still references a replaced instance; components whose parameters (and referenced components) did not change keep their identity. non-trivial = distinct (old, new)",
 		"pairs rejected by Validate, or whose old configuration / reload / fresh start fails (e.g. a port in use), are counted and skipped; the authentication method is not switched (other methods need a reachable authority)")
 }
